@@ -995,6 +995,12 @@ void tickit_term_print(TickitTerm *tt, const char *str)
 
 void tickit_term_printn(TickitTerm *tt, const char *str, size_t len)
 {
+  /* At most len characters: nothing for 0. The driver's write_str would take
+   * a length of 0 to mean "use strlen"
+   */
+  if(!len)
+    return;
+
   (*tt->driver->vtable->print)(tt->driver, str, len);
 }
 
